@@ -83,6 +83,11 @@ func c18Definitions(c *c18Case) *c18Build {
 				th.Events = []gen.EventDef{{Type: "message", Ref: "msgS2"}}
 				link(th)
 			}
+			if c.Link == "waitcatch" {
+				th := g.Add(gen.Throw, p+"_throwW", "")
+				th.Events = []gen.EventDef{{Type: "message", Ref: "msgW"}}
+				link(th)
+			}
 			if c.Link == "catch" || c.Link == "both" {
 				th := g.Add(gen.Throw, p+"_throwC", "")
 				th.Events = []gen.EventDef{{Type: "signal", Ref: "sigC"}}
@@ -109,6 +114,23 @@ func c18Definitions(c *c18Case) *c18Build {
 		b.exec = append(b.exec, true)
 		b.links["p0_throwC"] = append(b.links["p0_throwC"], c18Link{len(b.graphs) - 1, "pc_catch", "catch"})
 		flows = append(flows, `<bpmn:messageFlow id="MF_c" sourceRef="p0_throwC" targetRef="pc_catch"/>`)
+	}
+	if c.Link == "waitcatch" {
+		// message flow towards a catch event inside a process that was never instantiated: nothing listens there,
+		// the throw has no effect and the set completes with its started processes
+		g := gen.NewGraph("pwc")
+		s := g.Add(gen.Start, "pwc_start", "")
+		ce := g.Add(gen.Catch, "pwc_catch", "")
+		ce.Events = []gen.EventDef{{Type: "message", Ref: "msgW"}}
+		t := g.Add(gen.Task, "pwc_t", "")
+		e := g.Add(gen.End, "pwc_end", "")
+		g.Connect(s, ce, nil)
+		g.Connect(ce, t, nil)
+		g.Connect(t, e, nil)
+		b.graphs = append(b.graphs, g)
+		b.exec = append(b.exec, false)
+		b.links["p0_throwW"] = append(b.links["p0_throwW"], c18Link{len(b.graphs) - 1, "pwc_catch", "unstarted-catch"})
+		flows = append(flows, `<bpmn:messageFlow id="MF_w" sourceRef="p0_throwW" targetRef="pwc_catch"/>`)
 	}
 	if c.Link == "start2" {
 		// a first waiting process that is NOT the target of the second flow, and a second one that is
@@ -160,7 +182,7 @@ func c18Cases(tier string, seed uint64) []fw.Case {
 	}
 	combos = append(combos, []string{"trivial", "trivial", "trivial"}, []string{"task", "trivial", "fork"}, []string{"fork", "task", "task"})
 	for ci, ex := range combos {
-		for _, link := range []string{"none", "start", "catch", "both", "start2"} {
+		for _, link := range []string{"none", "start", "catch", "both", "start2", "waitcatch"} {
 			if link != "none" && ex[0] == "trivial" && len(ex) == 1 {
 				// fine: p0 gets the pre task anyway
 			}
@@ -516,7 +538,7 @@ func init() {
 			v.Nontrivial = true
 			return v
 		},
-		Rule:        "sets of 1..3 executable processes (trivial start->end, one task, fork/join) + a dedicated catching process and/or a waiting process linked by 0..2 message flows (throw -> start event of a waiting process, throw -> catch event; the catch event carries the signalRef the wake-up needs; the throw sits behind a task answered only once the catch event listens) x subscription-window hook at probability 0/0.5/1 x wait histories {one, two sequential, three concurrent, expired then repeated}; after every answer the pending requests must equal the union of the single-process references, no set waiter may return true (nor a cease-process-set trace appear) while a started process has tokens, at the end every waiter returns true, later waits return true, exactly one cease-process-set trace, instantiations = executable + thrown; one process per case (a double close panics the program); distinct = descriptor hash, all non-trivial",
+		Rule:        "sets of 1..3 executable processes (trivial start->end, one task, fork/join) + a dedicated catching process and/or a waiting process linked by 0..2 message flows (throw -> start event of a waiting process, throw -> catch event of a running process, throw -> catch event of a process that was never instantiated = no effect; the catch event carries the signalRef the wake-up needs; the throw sits behind a task answered only once the catch event listens) x subscription-window hook at probability 0/0.5/1 x wait histories {one, two sequential, three concurrent, expired then repeated}; after every answer the pending requests must equal the union of the single-process references, no set waiter may return true (nor a cease-process-set trace appear) while a started process has tokens, at the end every waiter returns true, later waits return true, exactly one cease-process-set trace, instantiations = executable + thrown; one process per case (a double close panics the program); distinct = descriptor hash, all non-trivial",
 		Assumptions: []string{"the statement does not say what a throw towards a not-yet-listening catch event must do: stepwise cases order the answers so that the catch event listens first"},
 	})
 }
